@@ -1,6 +1,7 @@
 import Claripy.AST.Rules
 import Claripy.AST.Fold
 import Claripy.AST.Meta
+import Claripy.AST.Subst
 /-! S-expression reader/printer and the `ev` / `fold` / `rules` requests of the line protocol. -/
 namespace Driver.Expr
 open Claripy.AST
@@ -110,6 +111,33 @@ def handleMeta (toks : List String) : String :=
     let w := match e.width with | some w => toString w | none => "none"
     let vs := (e.vars.eraseDups.toArray.qsort (· < ·)).toList
     s!"w={w} vars={",".intercalate vs} depth={e.depth} sym={if e.symbolic then 1 else 0}"
+  | none => "bad-op"
+
+/-- `replace <name> <w> <r> | <e>` : claripy.replace(e, BVS(name,w), r) -/
+def handleReplace (toks : List String) : String :=
+  match toks with
+  | name :: w :: rest =>
+    let (pre, post) := rest.span (· ≠ "|")
+    match w.toNat?, parseExpr pre, parseExpr (post.drop 1) with
+    | some w, some r, some e =>
+      match replaceBv name w r e with
+      | .ok x => toSexpr x
+      | .error er => showErr er
+    | _, _, _ => "bad-op"
+  | _ => "bad-op"
+
+/-- `canon <e>` -/
+def handleCanon (toks : List String) : String :=
+  match parseExpr toks with
+  | some e => toSexpr (canonicalize e)
+  | none => "bad-op"
+
+/-- `itedictplan k1 k2 ...` : the split keys `ite_dict` visits (keys already reduced to unsigned values) -/
+def handlePlan (args : List String) : String :=
+  match args.mapM String.toNat? with
+  | some ks =>
+    let d : List (Nat × Expr) := ks.map fun k => (k, Expr.boolv true)
+    " ".intercalate ((iteDictPlan medianKey d.length d).map toString)
   | none => "bad-op"
 
 end Driver.Expr
